@@ -10,6 +10,6 @@ def configs(tier, seed):
     for n, K in sizes:
         for part in sup.partitions(n, 2, K):
             for branch in ("pre", "fn"):
-                cfgs.append(dict(n=n, K=K, part=list(part), branch=branch, distinct=True, zero_diag=True, resub=True,
+                cfgs.append(dict(n=n, K=K, part=list(part), branch=branch, distinct=True, zero_diag=True, positive=True, resub=True,
                                  weight=10 ** n, wstride=5 if n <= 3 else (41 if n == 4 else 2001), sub="sup"))
     return cfgs
